@@ -128,6 +128,17 @@ pub fn sized_many(kind: usize, n: usize, width: usize) -> Vec<u8> {
         _ => &q,
     };
     let kids: Vec<&dyn Aml> = vec![c; n];
+    with_children(kind, kids)
+}
+/// a child that hands fixed bytes to the sink in one slice
+pub struct Bytes(pub Vec<u8>);
+impl Aml for Bytes {
+    fn to_aml_bytes(&self, sink: &mut dyn acpi_tables::AmlSink) {
+        sink.vec(&self.0);
+    }
+}
+/// an object of `kind` with exactly these children
+pub fn with_children(kind: usize, kids: Vec<&dyn Aml>) -> Vec<u8> {
     match SIZED_KINDS[kind] {
         "Package" => ser(&Package::new(kids)),
         "PackageBuilder" => {
